@@ -304,7 +304,7 @@ pub fn gen_c01(seed: u64, thorough: bool) -> Vec<CaseSpec> {
                 let o = OtiP { sch, e, b, p, ifti };
                 for sz in size_grid(&o) {
                     let mut sp = SessP::default();
-                    sp.oti = OtiP { sch, e: 1024, b: 8, p: if sch == Scheme::NoCode { 0 } else { 1 }, ifti: true };
+                    sp.oti = OtiP { sch, e: if sch == Scheme::Raptor { 64 } else { 1024 }, b: 8, p: if sch == Scheme::NoCode { 0 } else { 1 }, ifti: true };
                     sp.w = 1 + (rng.below(4) as u32);
                     sp.full = rng.bool();
                     let mut ob = ObjP::default();
@@ -320,7 +320,8 @@ pub fn gen_c01(seed: u64, thorough: bool) -> Vec<CaseSpec> {
     }
     // (2) scheme maxima: maximum transfer length and one above
     for sch in Scheme::ALL {
-        let (e, b) = (2u32, 2u32);
+        // (Raptor cannot encode blocks of 2 or 3 symbols: D23/D26)
+        let (e, b) = if sch == Scheme::Raptor { (1u32, 4u32) } else { (2u32, 2u32) };
         let o = OtiP { sch, e, b, p: if sch == Scheme::NoCode { 0 } else { 1 }, ifti: true };
         let max = crate::sess::scheme_max_tl(&o) as u64;
         let runnable = max <= 3000 || (thorough && max <= 300_000) || (sch == Scheme::NoCode && max <= 300_000);
@@ -329,7 +330,7 @@ pub fn gen_c01(seed: u64, thorough: bool) -> Vec<CaseSpec> {
                 continue;
             }
             let mut sp = SessP::default();
-            sp.oti = OtiP { e: 1024, b: 8, ..o };
+            sp.oti = OtiP { e: if sch == Scheme::Raptor { 64 } else { 1024 }, b: 8, ..o };
             sp.n = if run { 0 } else { 8 };
             let mut ob = ObjP::default();
             ob.sz = sz;
@@ -361,6 +362,15 @@ pub fn gen_c01(seed: u64, thorough: bool) -> Vec<CaseSpec> {
         // keep the FDT within a few hundred packets
         if sp.oti.e < 16 {
             sp.oti.e = *rng.pick(&[16u32, 64, 256, 1024]);
+        }
+        // the FDT is coded with the default OTI: Reed-Solomon without parity cannot be published
+        // (D21, refused since 318df3e), a Raptor block needs 4 source symbols (D23/D26)
+        if matches!(sch, Scheme::Rs | Scheme::RsUs) && sp.oti.p == 0 && rng.chance(9, 10) {
+            sp.oti.p = 1;
+        }
+        if sch == Scheme::Raptor {
+            sp.oti.e = *rng.pick(&[16u32, 32, 64]);
+            sp.oti.b = *rng.pick(&[8u32, 64]);
         }
         sp.w = 1 + rng.below(4) as u32;
         sp.full = rng.bool();
